@@ -377,6 +377,8 @@ func (mr *memRepo) blobCreate(locked bool, opts ...BlobOpt) (BlobCreator, string
 			ok = false
 		}
 		if ok {
+			// content that is pushed again is as recent as a new upload, the GC grace period starts over
+			b.m.mod = time.Now()
 			return nil, "", types.ErrBlobExists
 		}
 	}
